@@ -225,12 +225,12 @@ func TestVF_C10(t *testing.T) {
 	defer r.Finish()
 	r.Rule("case = one generated fixture (1..3 raw TSDB blocks: sequential / replica / half-overlapping in time, 1..6 chunks per series, dense/late/early/gappy/single-sample series, ~10% native-histogram series, " +
 		"1..many segment files, stored labels colliding with external labels) served by 3 BucketStores (index cache none / large / tiny-evicting; header sampling 1,2,32; small series/chunk size estimates forcing refetch; pooled chunk bytes; partitioner gap 1..default) " +
-		"x generated requests (1..3 matchers of 20 shapes incl. same-name combinations, external and absent names; closed ranges at chunk/block edges; SkipChunks 15%). Every request is issued twice in a row on every store with freshly drawn " +
+		"x generated requests (1..4 matchers of 20 shapes; 30% constrain several different labels, 30% put 2..3 matchers on one label, rest free incl. external and absent names; closed ranges at chunk/block edges; SkipChunks 15%). Every request is issued twice in a row on every store with freshly drawn " +
 		"lazy-postings settings and series batch size (1,3,10000), and 30% of the requests are re-issued later (cache history). " +
 		"oracle: flattened answer == union over blocks of Prometheus NewBlockChunkQuerier(block,mint,maxt).Select(DisableTrimming) with external labels applied, chunks compared as sets of (mint,maxt,encoding,bytes). " +
 		"evaluation = one store answer compared; distinct/non-trivial = (fixture, request) whose reference answer has at least one series")
-	nFix := r.N(6, 36)
-	nReq := r.N(32, 70)
+	nFix := r.N(8, 36)
+	nReq := r.N(40, 70)
 	r.Require(int64(nFix*nReq*4), nFix*nReq/8)
 	r.Assume("request ranges have mint <= maxt; blocks have no tombstones; block meta min/max time bound the samples (as the compactor writes them)")
 	r.Assume("series that become label-identical after external labels override stored ones are one series whose chunks are the union (identical chunks once), as the store's documented merge does")
@@ -276,8 +276,10 @@ func vfc10RunFixture(t *testing.T, r *vfkit.Run, c int, rng *rand.Rand, nReq int
 		if replay {
 			rq = history[rng.Intn(len(history))]
 		} else {
-			if rng.Intn(5) < 2 {
+			if k := rng.Intn(10); k < 3 {
 				rq.ms = vfc07GenMatchersMulti(rng, fx.u, 0.05)
+			} else if k < 6 {
+				rq.ms = vfc07GenMatchersSameName(rng, fx.u)
 			} else {
 				rq.ms = vfc07GenMatchers(rng, fx.u, 0.1)
 			}
